@@ -68,7 +68,7 @@ theorem blameScalarAt_of_not_dict {ext : Ext} {b : B} {path : String} {dt : Data
 /-- a call without a string form (`None`, unit, bytes, …) is blamed on the column, dictionary or not -/
 theorem blameScalarAt_of_nostr {ext : Ext} {path : String} {dt : DataType} {x : SVal}
     (h : scalarToString ext x = none) : blameScalarAt ext path dt x = [path] := by
-  cases dt <;> simp [blameScalarAt, h]
+  cases dt <;> simp [blameScalarAt_old, h]
 
 /-- a scalar call without a string form never reaches a child builder: no annotated error -/
 theorem pushScalar_nostr_noctx (ext : Ext) [ExtPlain ext] (b : B) (x : SVal) (h : scalarToString ext x = none) :
@@ -80,7 +80,7 @@ theorem pushScalar_nostr_noctx (ext : Ext) [ExtPlain ext] (b : B) (x : SVal) (h 
 /-- every integer has a string form: the blame of an integer call does not depend on the integer -/
 theorem blameScalarAt_int {ext : Ext} {path : String} {dt : DataType} (t t' : IntTy) (v v' : Int) :
     blameScalarAt ext path dt (.int t v) = blameScalarAt ext path dt (.int t' v') := by
-  cases dt <;> simp [blameScalarAt, scalarToString]
+  cases dt <;> simp [blameScalarAt_old, scalarToString]
 
 /-- into a dictionary column with string values every byte (as `serialize_u8`) has a meaning -/
 theorem mapM_interp_dict_utf8 {ext : Ext} {kdt vdt : DataType} {vals : B} {n : Bool} {md : Metadata}
@@ -113,7 +113,7 @@ theorem dict_scalar_bl {ext : Ext} [ExtPlain ext] {x : SVal} {p : String} {idx v
   simp only [WFH] at hw
   have hdv : DictVals vals index := hw.2.2.2.2.2.1
   have hvp := ha.dictionary_value
-  simp only [blameScalarAt]
+  simp only [blameScalarAt_old]
   cases hs : scalarToString ext x with
   | none =>
     simp only
